@@ -1,7 +1,6 @@
 import ZipVerif.Gen.Read
 import ZipVerif.Model.Reader
 import ZipVerif.Tie.Parsers
-import ZipVerif.Lemmas.ReaderBounds
 
 /-
 Tie obligations for the READER GLUE of src/read.rs (translator tier T6, helper t6r; vocabulary in
@@ -110,31 +109,118 @@ theorem new_loop (ao : UInt64) : ∀ (n : Nat) (i : UInt64) (nm : Rs.HashMap Byt
       insertNames, Rs.Vec.len]
     rfl
 
+/-! A successful `find_and_parse` returns a comment of at most 65535 bytes (its length is read from a `u16`
+field): that is what makes `-(20 + 22 + comment.len() as i64)` of `get_directory_counts` safe.  (Proved here
+rather than imported from `Lemmas/ReaderBounds.lean`, which cannot be imported together with the lemma files of
+C10.) -/
+
+/-- every successful run returns a value satisfying `Q` -/
+def Post {α} (Q : α → Prop) (x : M α) : Prop := ∀ fa d a d', x fa d = (.ok a, d') → Q a
+
+theorem Post.bind {α β} {P : β → Prop} {Q : α → Prop} {x : M β} {f : β → M α} (hx : Post P x)
+    (hf : ∀ b, P b → Post Q (f b)) : Post Q (x >>= f) := by
+  intro fa d a d' h
+  rw [M.bind_apply] at h
+  rcases hx' : x fa d with ⟨o, d1⟩
+  rw [hx'] at h
+  cases o with
+  | ok b => exact hf b (hx _ _ _ _ hx') _ _ _ _ h
+  | err e => cases h
+  | panic s => cases h
+
+theorem Post.bind_any {α β} {Q : α → Prop} {x : M β} {f : β → M α} (hf : ∀ b, Post Q (f b)) :
+    Post Q (x >>= f) :=
+  Post.bind (P := fun _ => True) (fun _ _ _ _ _ => trivial) fun b _ => hf b
+
+theorem Post.pure {α} {Q : α → Prop} {a : α} (h : Q a) : Post Q (Pure.pure a : M α) := by
+  intro fa d b d' hb
+  cases hb
+  exact h
+
+theorem Post.throw {α} {Q : α → Prop} (e : ZErr) : Post Q (M.throw e : M α) := by
+  intro fa d b d' hb
+  cases hb
+
+theorem Post.ite {α} {Q : α → Prop} {c : Prop} [Decidable c] {x y : M α} (hx : Post Q x) (hy : Post Q y) :
+    Post Q (if c then x else y) := by
+  split
+  · exact hx
+  · exact hy
+
+theorem Post.readExact (n : Nat) : Post (fun r => r.length = n) (M.readExact n) := by
+  intro fa d r d' h
+  unfold M.readExact at h
+  by_cases h0 : n = 0
+  · simp only [h0, ↓reduceIte] at h
+    cases h
+    simp only [List.length_nil, h0]
+  · simp only [h0, ↓reduceIte, M.bind_apply] at h
+    rcases hr : M.read n fa d with ⟨o, d1⟩
+    rw [hr] at h
+    cases o with
+    | err e => cases h
+    | panic s => cases h
+    | ok r1 =>
+      simp only [] at h
+      by_cases hl : r1.length = n
+      · simp only [hl, ↓reduceIte] at h
+        cases h
+        exact hl
+      · simp only [hl, ↓reduceIte] at h
+        by_cases hz : r1.length = 0
+        · simp only [hz, ↓reduceIte] at h
+          cases h
+        · simp only [hz, ↓reduceIte, M.bind_apply] at h
+          rcases hr2 : M.read (n - r1.length) fa d1 with ⟨o2, d2⟩
+          rw [hr2] at h
+          cases o2 <;> cases h
+
+theorem parseEocd_comment_len : Post (fun e => e.comment.length ≤ 65535) parseEocd := by
+  unfold parseEocd
+  apply Post.bind_any; intro magic
+  apply Post.ite
+  · exact Post.throw _
+  · apply Post.bind_any; intro _
+    apply Post.bind_any; intro _
+    apply Post.bind_any; intro _
+    apply Post.bind_any; intro _
+    apply Post.bind_any; intro _
+    apply Post.bind_any; intro _
+    apply Post.bind_any; intro clen
+    refine Post.bind (Post.readExact _) fun comment hc => ?_
+    apply Post.pure
+    have := clen.toNat_lt
+    show comment.length ≤ 65535
+    omega
+
 theorem findEocdLoop_comment_len (bound : Nat) : ∀ (fuel pos : Nat),
-    PostV (fun r => r.1.comment.length ≤ 65535) (findEocdLoop bound fuel pos) := by
+    Post (fun r => r.1.comment.length ≤ 65535) (findEocdLoop bound fuel pos) := by
   intro fuel
   induction fuel with
-  | zero => intro pos; unfold findEocdLoop; postv
+  | zero => intro pos; unfold findEocdLoop; exact Post.throw _
   | succ n ih =>
     intro pos
     unfold findEocdLoop
-    apply PostV.ite
-    · exact PostV.throw _
-    · apply PostV.bind_any; intro _
-      apply PostV.bind_any; intro w
-      apply PostV.ite
-      · apply PostV.bind_any; intro _
-        apply PostV.bind_any; intro c
-        refine PostV.bind parseEocd_comment_len fun e he => ?_
-        exact PostV.pure he
-      · apply PostV.ite
-        · exact PostV.throw _
+    apply Post.ite
+    · exact Post.throw _
+    · apply Post.bind_any; intro _
+      apply Post.bind_any; intro w
+      apply Post.ite
+      · apply Post.bind_any; intro _
+        apply Post.bind_any; intro c
+        refine Post.bind parseEocd_comment_len fun e he => ?_
+        exact Post.pure he
+      · apply Post.ite
+        · exact Post.throw _
         · exact ih _
 
 theorem findAndParseEocd_comment_len :
-    PostV (fun r => r.1.comment.length ≤ 65535) findAndParseEocd := by
+    Post (fun r => r.1.comment.length ≤ 65535) findAndParseEocd := by
   unfold findAndParseEocd
-  postv [findEocdLoop_comment_len _ _ _]
+  apply Post.bind_any; intro _
+  apply Post.ite
+  · exact Post.throw _
+  · exact findEocdLoop_comment_len _ _ _
 
 /-- the value built from the loop state -/
 def mkRes (off : UInt64) (comment : Bytes) (t : List FileData × UInt64 × Rs.HashMap Bytes UInt64) :
@@ -185,7 +271,7 @@ theorem tie_zip_archive_new (fa : Option Nat) (d : Dev) (hd : d.buf.length < 2 ^
     have hmodel : findAndParseEocd fa d = (.ok (eocdRes (footer, cde)), d1) := by
       rw [← h1]
       simp only [map_eq_pure_bind, M.bind_apply, hG, M.pure_apply]
-    have hb : footer.zip_file_comment.length ≤ 65535 := hc.elim hmodel
+    have hb : footer.zip_file_comment.length ≤ 65535 := hc _ _ _ _ hmodel
     have hlen : footer.zip_file_comment.length < 2 ^ 63 - 42 := by omega
     refine congrFun (congrFun ?_ fa) d1
     have hcond : (!(eocdRes (footer, cde)).fst.recordTooSmall &&
